@@ -76,10 +76,10 @@ func c16SFTPChild() {
 			keep[id] = struct{}{}
 		}
 		err = s.Prune(context.Background(), keep)
-		fmt.Println("result:", errClass(err))
+		fmt.Println("result:", lsErrClass(err))
 	case "store":
 		err = s.StoreChunk(desync.NewChunk(vh.UnHex(job.Data)))
-		fmt.Println("result:", errClass(err))
+		fmt.Println("result:", lsErrClass(err))
 	}
 	s.Close()
 	os.Exit(0)
@@ -120,7 +120,7 @@ func c16RunSFTP(a vh.Args, job sftpJob, timeout time.Duration) (string, error) {
 
 func c16SFTP(a vh.Args, o *vh.Oracle, r *vh.Result, c *c16Case) error {
 	desync.Digest = desync.SHA256{}
-	dir, err := freshDir(a.Work, "sftp")
+	dir, err := lsFreshDir(a.Work, "sftp")
 	if err != nil {
 		return err
 	}
@@ -138,7 +138,7 @@ func c16SFTP(a vh.Args, o *vh.Oracle, r *vh.Result, c *c16Case) error {
 	after, _ := snapshotTree(dir)
 	unref := 0
 	for _, e := range before {
-		if id, ok := canonicalID(e.Path, c.Unc); ok && e.Kind == "f" && !inSet(c.Keep, id) {
+		if id, ok := canonicalID(e.Path, c.Unc); ok && e.Kind == "f" && !lsInSet(c.Keep, id) {
 			unref++
 		}
 	}
@@ -168,14 +168,14 @@ func c16SFTP(a vh.Args, o *vh.Oracle, r *vh.Result, c *c16Case) error {
 		if _, ok := am[e.Path]; ok {
 			continue
 		}
-		if id, ok := canonicalID(e.Path, c.Unc); ok && !inSet(c.Keep, id) {
+		if id, ok := canonicalID(e.Path, c.Unc); ok && !lsInSet(c.Keep, id) {
 			continue
 		}
 		fail("sftp/removes-wrong-file", "SFTP prune removed "+e.Path)
 	}
 	if res == "nil" {
 		for _, e := range after {
-			if id, ok := canonicalID(e.Path, c.Unc); ok && e.Kind == "f" && !inSet(c.Keep, id) {
+			if id, ok := canonicalID(e.Path, c.Unc); ok && e.Kind == "f" && !lsInSet(c.Keep, id) {
 				cls := "sftp/leaves-unreferenced"
 				if c.Unc {
 					cls = "sftp/prune-uncompressed-noop"
@@ -195,7 +195,7 @@ func c16SFTP(a vh.Args, o *vh.Oracle, r *vh.Result, c *c16Case) error {
 	if o == nil || alias {
 		return nil
 	}
-	ans, err := o.Call("c16.sftpprune", b01(c.Unc), hx([]byte(dir)), strings.Join(c.Keep, ","), encodeTree("s", before))
+	ans, err := o.Call("c16.sftpprune", lsB01(c.Unc), lsHx([]byte(dir)), strings.Join(c.Keep, ","), encodeTree("s", before))
 	if err != nil {
 		return err
 	}
@@ -221,12 +221,12 @@ func c16SFTP(a vh.Args, o *vh.Oracle, r *vh.Result, c *c16Case) error {
 
 // a store through SFTP that is interrupted leaves "<name><random digits>"; show that prune ignores them
 func c16SFTPTemp(a vh.Args, r *vh.Result, unc bool) error {
-	dir, err := freshDir(a.Work, "sftp")
+	dir, err := lsFreshDir(a.Work, "sftp")
 	if err != nil {
 		return err
 	}
 	data := []byte("sftp temp file probe")
-	idh := sha256Hex(data)
+	idh := lsSha256Hex(data)
 	ext := ".cacnk"
 	if unc {
 		ext = ""
@@ -259,7 +259,7 @@ func c16SFTPAll(a vh.Args, o *vh.Oracle, r *vh.Result, rng *vh.Rand) error {
 	for i := 0; i < n; i++ {
 		g := c16GenTree(rng)
 		keep, tag := c16Keep(rng, g.ids)
-		c := &c16Case{Kind: "sftpprune", Backend: "sftp", Unc: i%2 == 0, Tree: g.ents, Keep: keep, KeepTag: tag, Feat: feats(g.feat), N: 2 + rng.Intn(2)}
+		c := &c16Case{Kind: "sftpprune", Backend: "sftp", Unc: i%2 == 0, Tree: g.ents, Keep: keep, KeepTag: tag, Feat: lsFeats(g.feat), N: 2 + rng.Intn(2)}
 		if i == 2 || i == 3 {
 			c.N = 1
 		}
